@@ -286,7 +286,7 @@ pub fn run(run: &Run) {
         });
     }
     // longer integer series, lags -50..=50 (the property's lag range), with offsets
-    for &len in &[60usize, 200, 1000] {
+    for &len in &[60usize, 200, 1000, 1025, 2049, 4100] {
         for seed in 0..3u64 {
             let xi: Vec<i128> = synth(len, &[0.6, -0.3], seed + 3).iter().map(|v| *v as i128).collect();
             for shift in [0.0, 1e3, 1e6] {
@@ -315,7 +315,7 @@ pub fn run(run: &Run) {
     }
     // longer deterministic series
     let coefsets: Vec<Vec<f64>> = vec![vec![0.5], vec![-0.7], vec![0.6, -0.3], vec![0.2, 0.1, -0.4], vec![0.5, -0.25, 0.125, -0.0625], vec![0.3, 0.0, 0.0, 0.0, 0.2, -0.3], vec![0.9], vec![1.2, -0.5]];
-    let lens: Vec<usize> = if run.thorough() { vec![50, 100, 200, 1000, 5000] } else { vec![50, 200, 1000] };
+    let lens: Vec<usize> = if run.thorough() { vec![50, 100, 200, 1000, 1025, 2049, 5000] } else { vec![50, 200, 1000, 1025, 3000] };
     let pmax = run.tier.pick(9usize, 12usize); // orders ≥ 8 reach the unrolled part of the dot kernel
     let mut jobs = Vec::new();
     for (ci, a) in coefsets.iter().enumerate() {
